@@ -8,6 +8,7 @@ import (
 
 	"exoverif/sim"
 
+	govv1 "github.com/cosmos/cosmos-sdk/x/gov/types/v1"
 	"pgregory.net/rapid"
 )
 
@@ -255,3 +256,47 @@ func init() {
 }
 
 func TestC11Down(t *testing.T) { runWorldProp(t, "C11Down") }
+
+// the same oracle over histories with governance traffic: proposals (empty, legacy text,
+// parameter updates naming the governance account or the proposer as authority) are submitted by
+// any account with deposits around the minimum, funded, voted on (validators' operator accounts
+// and everybody else, plain and weighted, valid and invalid options) while operators opt out,
+// replace keys, get slashed and jailed; the gov module's EndBlocker tallies through the dogfood
+// keeper and executes what passed
+func init() {
+	base := *worldProps["C11"]
+	base.Name = "C11Gov"
+	base.Gen = GenOpts{HostilePct: 10, ExtremePct: 2, MaxDt: 30, Tempos: []int{3, 10, 30}, Anchor: true, DowntimePct: 10,
+		Weights: map[string]int{
+			"nextBlock": 30, "govSubmit": 12, "govDeposit": 6, "govVote": 22, "depositLST": 4, "delegate": 6, "undelegate": 5, "optIn": 3, "optOut": 3, "setKey": 3,
+			"slash": 2, "evidence": 1, "msgUnjail": 2, "jail": 1, "payFee": 2, "updateParams": 2,
+		}}
+	base.Config = govConfig
+	base.MinSteps, base.MaxSteps = 30, 100
+	base.NonTrivial = func(m *Machine, invs []Invariant) (bool, []string) {
+		tallied := 0
+		for _, p := range m.govProposals() {
+			m.Labels["proposals-"+p.Status.String()]++
+			if p.Status == govv1.StatusPassed || p.Status == govv1.StatusRejected || p.Status == govv1.StatusFailed {
+				tallied++
+			}
+		}
+		return tallied > 0, nil
+	}
+	registerWorldProp(&base)
+}
+
+// govConfig: a world whose governance can be funded in the native token and whose deposit and
+// voting periods end within a history
+func govConfig(t *rapid.T) sim.Config {
+	cfg := worldConfig(t)
+	cfg.Gov = &sim.GovCfg{
+		MinDeposit:     []int64{1, 1000, 1000000}[uniform(t, 3, "minDeposit")],
+		DepositSeconds: int64([]int{5, 40, 200}[uniform(t, 3, "depositPeriod")]),
+		VotingSeconds:  int64([]int{5, 30, 90}[uniform(t, 3, "votingPeriod")]),
+	}
+	cfg.Slashing = &sim.SlashingCfg{Window: 4, MinSigned: "0.5", JailSeconds: 10, FractionDowntime: "0.01"}
+	return cfg
+}
+
+func TestC11Gov(t *testing.T) { runWorldProp(t, "C11Gov") }
